@@ -70,7 +70,9 @@ RULE = ("cells = (pair family x parametrisation x dimension/geometry x interface
         "worker process.  Oracles: the statement's, in every history (supported member accepted by an exact pair: captured "
         "Gamma exact for the target's own density; unsupported member: refused, or exact, or - approximate pairs - merely "
         "accepting it is the violation), and the differential one: refused / listed / accepted-with-these-Gamma-parameters of "
-        "a member through a route is the same in every history.  "
+        "a member through a route is the same in every history.  In the cells of the other five producers the four members are "
+        "offered as written-out lambdas (fresh) too: what fails there as well is reported under the route / the refusal "
+        "cells' signature of that dependence, not under the producer.  "
         "GMRF supported cells whose node count exists on both grid layouts (2-D N x N <-> 1-D with N*N nodes): a GMRF of the "
         "same dimension, order and bc on the OTHER layout is built before the members of the cell, and the other layout is "
         "itself a judged member (3 priors) after them - both orders inside the one cell.  "
@@ -1197,11 +1199,15 @@ def _eval_producer(cell, res):
                 raise HarnessError("producer %s built another function than c,p,e=%r" % (producer, cpe))
         return f
 
-    def judge(out, mname, supported, hist, route, focus, fresh_failed):
-        """The statement's oracle for one offer.  Returns True when a failure was reported."""
+    def judge(out, mname, supported, hist, route, focus, level):
+        """The statement's oracle for one offer.  Returns True when a failure was reported.
+        level: which facet discriminates a failure - "generic": the written-out lambda in a fresh history fails as well
+        (the signature is the one of the refusal cells / names the route only), "producer": this producer's fresh history
+        fails, "history": only this history fails."""
         verdict, cap, target = out
-        suffix = "" if (hist == "fresh" or fresh_failed) else ",history=" + hist
-        where = "route %s, %s, history %s" % (route, PR.PRODUCER_TEXT[producer], hist)
+        facet = {"generic": None, "producer": "produced-by=%s" % producer,
+                 "history": "produced-by=%s,history=%s" % (producer, hist)}[level]
+        where = "route %s, %s, history %s" % (route, PR.PRODUCER_TEXT.get(focus.get("produced_by"), "written-out lambda (control)"), hist)
         if verdict == "other-randomness":
             res.fail("C10|%s|callable-form|other-randomness" % comp, "%s offered (%s): a random request other than "
                      "numpy.random.gamma was issued: %s" % (mname, where, cap), focus=focus)
@@ -1212,15 +1218,15 @@ def _eval_producer(cell, res):
         if supported:
             if verdict != "accepted" or not exact_pair:
                 return False
-            sig = "C10|%s|supported-inexact|produced-by=%s%s" % (comp, producer, suffix)
+            sig = "C10|%s|supported-inexact|%s" % (comp, facet or "route=" + route)
         else:
             dev = max(abs(PR.reference(recip, *cpe_of[mname])(t) - gsup(t)) / abs(gsup(t)) for t in GRID)
             if dev <= NEAR_DECIDED:
                 return False
-            if iface == "legacy":
-                sig = _unsup_signature(comp, mname, iface)     # no structural validation at all: recorded per dependence
+            if iface == "legacy" or facet is None:
+                sig = _unsup_signature(comp, mname, iface)     # (stateless interface: no structural validation at all)
             else:
-                sig = "C10|%s|accepts-unsupported|produced-by=%s%s" % (comp, producer, suffix)
+                sig = "C10|%s|accepts-unsupported|%s" % (comp, facet)
             if not exact_pair:
                 res.fail(sig, "%s (differs from the supported form by %.3g relative on t=%s) was accepted (%s) by a sampler "
                          "that is approximate by design: not rejected, and sampled as if it were %s" %
@@ -1262,8 +1268,23 @@ def _eval_producer(cell, res):
     for n in cell["dims"]:
         for (a, b) in cell["priors"]:
             for route in routes:
-                fresh, fresh_failed = {}, {}
+                fresh, fresh_failed, control_failed = {}, {}, {}
                 base = "%s|n=%d|a=%g,b=%g|%s" % (cid, n, a, b, route)
+                if producer != "lambda":
+                    # control: the same members as written-out lambdas in a fresh history - what fails there as well is no
+                    # matter of the producer and is reported under the signature the refusal cells use
+                    for mname, cpe, supported in members:
+                        slot = cell_ord
+                        for idx, size in ((n, 8), (prior_ord[(float(a), float(b))], len(NEAR_PRIORS)),
+                                          (routes.index(route), len(ROUTES)), (3, 4), (names.index(mname), 4),
+                                          (names.index(mname), 4)):
+                            slot = slot * size + idx
+                        family = PR.Family("lambda", recip, slot, "%s|control|%s" % (base, mname))
+                        out = _prod_offer(iface, cls, route, {"fam": fam, "key": key, "fun": make(family, cpe)}, n, k, a, b)
+                        res.transitions += 1
+                        control_failed[mname] = judge(out, mname, supported, "fresh", route,
+                                                      {"member": mname, "c,p,e": list(cpe), "produced_by": "lambda (control)",
+                                                       "route": route, "n": n, "prior": [a, b]}, "generic")
                 for hist in PROD_HISTORIES:
                     for mname, cpe, supported in members:
                         if hist == "fresh":
@@ -1275,7 +1296,7 @@ def _eval_producer(cell, res):
                         for (mn, mc, msup, before) in todo:
                             slot = cell_ord
                             for idx, size in ((n, 8), (prior_ord[(float(a), float(b))], len(NEAR_PRIORS)),
-                                              (routes.index(route), len(ROUTES)), (PROD_HISTORIES.index(hist), 3),
+                                              (routes.index(route), len(ROUTES)), (PROD_HISTORIES.index(hist), 4),
                                               (names.index(mname), 4), (names.index(mn), 4)):
                                 slot = slot * size + idx
                             family = PR.Family(producer, recip, slot, "%s|%s|%s|%s" % (base, hist, mname, mn))
@@ -1294,14 +1315,17 @@ def _eval_producer(cell, res):
                             res.outcomes.add("%s:%s@%s:%s" % (hist, mn, route, out[0]))
                             if hist == "fresh":
                                 fresh[mn] = _prod_key(out)
-                                fresh_failed[mn] = judge(out, mn, msup, hist, route, focus, False)
+                                fresh_failed[mn] = judge(out, mn, msup, hist, route, focus,
+                                                         "generic" if (producer == "lambda" or control_failed.get(mn)) else "producer")
                                 if msup and out[0] in ("accepted", "listed"):
                                     sup_accepted += 1
                                 if msup and out[0] == "accepted" and res.sample is None:
                                     res.sample = dict(focus, captured_shape=out[1][0]["shape_param"] if out[1] else None,
                                                       captured_scale=out[1][0]["scale"] if out[1] else None)
                                 continue
-                            failed = judge(out, mn, msup, hist, route, focus, fresh_failed.get(mn, False))
+                            failed = judge(out, mn, msup, hist, route, focus,
+                                           "generic" if (control_failed.get(mn) or (producer == "lambda" and fresh_failed.get(mn)))
+                                           else ("producer" if fresh_failed.get(mn) else "history"))
                             res.evaluations += 1
                             if failed:
                                 o1_fired.add((mn, hist))    # (one defect, one signature: the other routes add nothing)
